@@ -7,7 +7,9 @@ package ioutil
 //@ package ioutil
 //@ import io "io"
 //@ import ocispec "github.com/opencontainers/image-spec/specs-go/v1"
+//@ import content "oras.land/oras-go/v2/content"
 //@
 //@ func CopyBuffer
 //@   ensures [C05:nil-means-verified] result == nil ==> matched(src, desc)
 //@   ensures [monotone] forall s io.Reader, d ocispec.Descriptor :: old(matched(s, d)) ==> matched(s, d)
+//@   modifies alloc, ghost.matched, ghost.atEOF, ghost.digestOK, ghost.delivered, new ghost.descOf, new ghost.srcOf, elems[byte], elems[any], io.LimitedReader.N, new io.LimitedReader.R, content.VerifyReader.err, new content.VerifyReader.base, new content.VerifyReader.verifier, new content.VerifyReader.verified
